@@ -12,6 +12,7 @@ def run(chk):
     numk.run_c08(chk)
     pyrules.r08_python(chk)
     pyrules.check_conn_cache(chk, 'R08.8')
+    pyrules.check_assembly_fint_accumulator(chk, 'R08.9')
     chk.explanation = ('calc_fint, fkL_num and fkG_num are lowered to polynomials over point atoms and '
                        'strain accumulators; fint is compared with sigma.d(eps)/dc, kL with the Gauss-Newton '
                        'form, and d(fint)/dc (symbolic derivative of the extracted fint) with kL+kG block by block')
